@@ -642,6 +642,12 @@ func (li *layoutInterp) exec(fn *ssa.Function, st *lpath, in ssa.Instruction) []
 		switch a := addr.(type) {
 		case avAddr:
 			if a.cell != "" {
+				// a whole value replaces what was stored field by field before
+				for k := range st.mem {
+					if strings.HasPrefix(k, a.cell+".") || strings.HasPrefix(k, a.cell+"[") {
+						delete(st.mem, k)
+					}
+				}
 				st.mem[a.cell] = val
 			} else {
 				st.effect = append(st.effect, "store to "+a.path+" at "+li.p.InstrPos(x))
@@ -792,6 +798,39 @@ func (li *layoutInterp) execUnOp(st *lpath, x *ssa.UnOp) {
 		case avAddr:
 			if a.cell != "" {
 				if v, ok := st.mem[a.cell]; ok {
+					// a struct stored as a whole and then changed field by field: compose
+					if stT, isSt := x.Type().Underlying().(*types.Struct); isSt {
+						over := false
+						for k := range st.mem {
+							if strings.HasPrefix(k, a.cell+".") {
+								over = true
+							}
+						}
+						if over {
+							ag := avAgg{elems: map[string]AV{}}
+							for i := 0; i < stT.NumFields(); i++ {
+								f := stT.Field(i)
+								if ov, has := st.mem[a.cell+"."+f.Name()]; has {
+									ag.elems["."+f.Name()] = ov
+									continue
+								}
+								switch b := v.(type) {
+								case avPath:
+									if o, has := st.mem["out:"+b.path+"."+f.Name()]; has {
+										ag.elems["."+f.Name()] = o
+									} else {
+										ag.elems["."+f.Name()] = li.valueOfPath(b.path+"."+f.Name(), f.Type())
+									}
+								case avAgg:
+									if e, has := b.elems["."+f.Name()]; has {
+										ag.elems["."+f.Name()] = e
+									}
+								}
+							}
+							st.vals[x] = ag
+							return
+						}
+					}
 					st.vals[x] = v
 					return
 				}
